@@ -48,8 +48,8 @@ class SObj(Model):
                     return wrap_bool(self.tag == t)
                 if self is const:
                     return wrap_bool(other.tag == t)
-        if other is None:
-            return False
+        if other is None or not isinstance(other, SObj):
+            return False   # tuples, lists and opaque library terms are never the sentinel / element object itself
         raise Unsupported("identity comparison between two non-sentinel values")
 
     def m_isinstance(self, eng, clsname):
